@@ -1,6 +1,7 @@
 import OrbitModel.Proofs.Auth
 import OrbitModel.Proofs.AuthBatch
 import OrbitModel.Proofs.AuthExamples
+import OrbitModel.Model.Store
 /-!
 # C04 — tampered, mis-addressed or foreign-database entries are never merged
 -/
@@ -69,5 +70,34 @@ theorem foreign_entry_came_back_through_load_before_the_fix :
     (∃ L, loadHead { wildcard := true } fetch (-1) (Log.empty 1) 3 = .ok L ∧ f ∈ L.heads) ∧
     (∃ L, loadHead { wildcard := true } (ownFetch 1 fetch) (-1) (Log.empty 1) 3 = .ok L ∧ f ∉ L.heads ∧ f ∉ L.entries) := by
   refine ⟨⟨_, rfl, ?_⟩, ⟨_, rfl, ?_, ?_⟩⟩ <;> decide
+
+/-- **what the reload and snapshot routes hand to `Join` sits at the address of its content** (after
+the `fix:` commit, finding F46; the replicator drops such an entry like one of another log, and `Sync`
+has always compared the re-encoded hash of an announced head): an entry fetched under an address that
+is not the address of its content — the same signed entry written again with other bytes — is never
+merged, so one signed entry is one member of the log -/
+theorem fetched_entries_sit_at_the_address_of_their_content (acl : Acl) (id : Nat) (fetch : Nat → OMap) (h : Nat) :
+    ∀ e ∈ goodFetch acl id fetch h, e.hashOk = true ∧ acceptable acl.canAppend e = true ∧ e.logId = id := by
+  intro e he
+  unfold goodFetch at he
+  obtain ⟨h0, hk⟩ := List.mem_filter.mp he
+  unfold goodFetch1 at h0
+  obtain ⟨h1, h2⟩ := List.mem_filter.mp h0
+  unfold ownFetch at h1
+  exact ⟨hk, h2, by simpa using (List.mem_filter.mp h1).2⟩
+
+/-- Refutation witness for the filter as it was: entry 2 is writer 1's genuine entry 1 written again
+with other bytes (same content, same valid signature, another address); a colluding writer's entry 3
+names it; loaded from the cached head 3 it was merged — the writer's payload listed twice; now it
+stays out (replayed on the real store live, after a restart and through a snapshot: corpus/C04/f46) -/
+theorem twin_of_a_genuine_entry_was_merged_before_the_fix :
+    let g : Entry := { hash := 1, logId := 1, time := 1, cid := 1, next := [] }
+    let t : Entry := { hash := 2, logId := 1, time := 1, cid := 1, next := [], hashOk := false }
+    let x : Entry := { hash := 3, logId := 1, time := 2, cid := 2, next := [2, 1] }
+    let fetch : Nat → OMap := fun _ => [x, t, g]
+    (∃ L, loadHead { wildcard := true } (goodFetch1 { wildcard := true } 1 fetch) (-1) (Log.empty 1) 3 = .ok L ∧ t ∈ L.entries) ∧
+    (∃ L, loadHead { wildcard := true } (goodFetch { wildcard := true } 1 fetch) (-1) (Log.empty 1) 3 = .ok L ∧
+      t ∉ L.entries ∧ g ∈ L.entries ∧ x ∈ L.entries) := by
+  refine ⟨⟨_, rfl, ?_⟩, ⟨_, rfl, ?_, ?_, ?_⟩⟩ <;> decide
 
 end Orbit.C04
